@@ -618,6 +618,64 @@ def w7(F, rep):
                 "mutable uses of the expanded code lengths before the codes are built: %s" % muts)
 
 
+def w11(F, rep):
+    """The parsed token is a lossless record of (length 3..258, distance 1..32768, irregular-258 flag): the constructor stores
+    the three arguments (the length possibly biased by 3) in fields wide enough for the whole range, each accessor returns
+    its field unmasked, and the flag setter touches the flag only.  A packed representation that borrows a bit of the
+    distance word loses distance 32768.  ⚠ enumerated record shape; anything else fails closed."""
+    T = P + "preflate_token::PreflateTokenReference"
+    adt = F.adts.get(T)
+    where = ""
+    if not adt or adt.get("kind") != "struct":
+        rep.add("W11", "token-record-lossless", False, where, "PreflateTokenReference is not a plain struct")
+        return
+    fields = adt["variants"][0]["fields"]
+    nb = F.body(T + "::new")
+    where = "%s:%s" % (nb.file, nb.line)
+    aggs = [s["r"] for bb in nb.normal_blocks() for s in nb.stmts(bb) if s["k"] == "assign" and s["r"]["k"] == "agg" and (s["r"].get("adt") or "").endswith("PreflateTokenReference")]
+    why = []
+    role = {}
+    if len(aggs) != 1 or len(aggs[0]["ops"]) != len(fields):
+        why.append("constructor does not build the record in one aggregate")
+    else:
+        for f, o in zip(fields, aggs[0]["ops"]):
+            d = flow.describe(nb, o)
+            bits = {"u8": 8, "u16": 16, "u32": 32, "u64": 64, "usize": 64}.get(f["ty"], 0)
+            if re.match(r"^arg<u32>#1$", d) and bits >= 16:
+                role["dist"] = f["name"]
+            elif re.match(r"^Sub\(arg<u32>#0, K3\)(\.0)?$", d) and bits >= 8:
+                role["len"] = (f["name"], 3)
+            elif re.match(r"^arg<u32>#0$", d) and bits >= 16:
+                role["len"] = (f["name"], 0)
+            elif re.match(r"^arg<bool>(#0)?$", d) and f["ty"] == "bool":
+                role["irr"] = f["name"]
+        for k in ("dist", "len", "irr"):
+            if k not in role:
+                why.append("constructor stores no field for %s at full range" % k)
+
+    def ret(fn):
+        b = F.body(T + "::" + fn)
+        return [flow.describe_rvalue(b, s["r"], names=False) for bb in b.normal_blocks() for s in b.stmts(bb) if s["k"] == "assign" and s["p"]["l"] == 0 and not s["p"]["p"]]
+    A = r"arg<&(mut )?preflate_rs::preflate_token::PreflateTokenReference>"
+    if not why:
+        r = ret("dist")
+        if not (len(r) == 1 and re.match(r"^%s\.%s$" % (A, role["dist"]), r[0])):
+            why.append("dist() returns %s" % r)
+        r = ret("len")
+        fl, bias = role["len"]
+        want = r"^Add\(%s\.%s, K3\)(\.0)?$" % (A, fl) if bias else r"^%s\.%s$" % (A, fl)
+        if not (len(r) == 1 and re.match(want, r[0])):
+            why.append("len() returns %s" % r)
+        r = ret("get_irregular258")
+        if not (len(r) == 1 and re.match(r"^%s\.%s$" % (A, role["irr"]), r[0])):
+            why.append("get_irregular258() returns %s" % r)
+        sb = F.body(T + "::set_irregular258")
+        wr = [(s["p"], flow.describe_rvalue(sb, s["r"], names=False)) for bb in sb.normal_blocks() for s in sb.stmts(bb) if s["k"] == "assign" and s["p"]["p"] and s["p"]["l"] == 1]
+        if not (len(wr) == 1 and any(isinstance(e, dict) and e.get("n") == role["irr"] for e in wr[0][0]["p"]) and re.match(r"^arg<bool>(#0)?$", wr[0][1])):
+            why.append("set_irregular258 writes %s" % [(str(p["p"]), d) for p, d in wr])
+    rep.add("W11", "token-record-lossless", not why, where, "; ".join(why) if why else "fields %s; accessors return them unmasked" % role)
+
+
 def run(ctx, rep):
     F = ctx.lib
     rep.explanation = ("The serialiser is checked against the parser and the RFC without going through the predictor: exact piecewise summaries of the "
@@ -635,6 +693,9 @@ def run(ctx, rep):
     w6(F, rep)
     w7(F, rep)
     w9(F, rep)
+    w11(F, rep)
+    from .c03 import t11
+    t11(F, rep)
     # W8: what the parser captures as padding are exactly the bits left in the current byte, taken with the bit reader's own
     # read primitive (same rule as C03/T5 padding-count; a capture computed by hand from the reader's fields is not accepted)
     from . import c03
